@@ -69,7 +69,7 @@ func (Prop) Gen(r *core.Rand, tier string) interface{} {
 		w.SkipHooks = r.Chance(12)
 		c.W = &w
 	} else {
-		ro := ops.GenROp(r, []string{"first", "take_struct", "find_all", "find_where", "find_pets", "preload", "preload", "find_in_batches"})
+		ro := ops.GenROp(r, []string{"first", "take_struct", "find_all", "find_where", "find_pets", "preload", "preload", "find_in_batches", "foc_found", "foc_assign", "joins"})
 		ro.SkipHooks = r.Chance(12)
 		c.R = &ro
 	}
@@ -77,7 +77,7 @@ func (Prop) Gen(r *core.Rand, tier string) interface{} {
 		c.MaxSites = 25
 	}
 	if r.Chance(40) {
-		c.ErrClass = r.Pick(simdrv.Classes)
+		c.ErrClass = r.Pick(append([]string{"notfound", "notfound"}, simdrv.Classes...))
 	}
 	return c
 }
@@ -274,6 +274,8 @@ func (p Prop) checkClean(c *Case, x *execInfo) (string, string, string) {
 		n, known := node[rec]
 		var allowed []string
 		switch {
+		case c.R != nil && c.R.Kind == "foc_assign":
+			allowed = []string{patFind + "," + patUpdate}
 		case c.R != nil:
 			allowed = []string{patFind}
 		case known && n.Root:
@@ -362,6 +364,9 @@ func (p Prop) checkClean(c *Case, x *execInfo) (string, string, string) {
 	// the operation's own transaction
 	pool := ""
 	for _, h := range sr.Hooks {
+		if c.R != nil && c.R.Kind == "foc_assign" && h.Hook == "AfterFind" {
+			continue // FirstOrCreate's look-up is a query of its own, outside the update's transaction
+		}
 		if pool == "" {
 			pool = h.Pool
 		}
@@ -393,7 +398,9 @@ func (p Prop) checkClean(c *Case, x *execInfo) (string, string, string) {
 			}
 		}
 		for _, h := range sr.Hooks {
-			items = append(items, item{h.Seq, fam.TableOf[h.Model], 1, true})
+			if h.Hook == "AfterFind" {
+				items = append(items, item{h.Seq, fam.TableOf[h.Model], 1, true})
+			}
 		}
 		sort.Slice(items, func(i, j int) bool { return items[i].seq < items[j].seq })
 		for _, it := range items {
@@ -404,6 +411,29 @@ func (p Prop) checkClean(c *Case, x *execInfo) (string, string, string) {
 				}
 			} else {
 				delivered[it.tbl] += it.rows
+			}
+		}
+		if c.R.Kind == "joins" {
+			// records loaded through Joins are loaded records too: one AfterFind each
+			if us, ok := sr.Res.Value.(*[]fam.User); ok {
+				joined := map[string]int{}
+				for i := range *us {
+					if (*us)[i].Company != nil && (*us)[i].Company.ID != 0 {
+						joined["companies"]++
+					}
+					if (*us)[i].Manager != nil && (*us)[i].Manager.ID != 0 {
+						joined["users"]++
+					}
+				}
+				for _, tbl := range []string{"companies", "users"} {
+					want := joined[tbl]
+					if tbl == "users" {
+						want += delivered["users"]
+					}
+					if found[tbl] < want {
+						return "hook_missing", k + "|afterfind_joined|" + tbl, fmt.Sprintf("%d %s records were loaded through Joins (plus %d rows of the queried table) but AfterFind fired %d times on that model", joined[tbl], tbl, want-joined[tbl], found[tbl])
+					}
+				}
 			}
 		}
 		for tbl, n := range delivered {
